@@ -15,14 +15,12 @@ import IclModel.Gen.Cp037
 import IclModel.Gen.Split
 import IclModel.ApiWire
 import IclModel.FileOKCheck
+import IclModel.GenModel
 open Icl Icl.Wire
 
 def findRec (n : String) : Option RecLayout := Gen.all.find? (fun L => L.name == n)
 
-def theModel (frb : Bool) (now : Date) : Model :=
-  { layouts := Gen.all, validator := treeValidator Gen.all Gen.allRules Gen.codes b64Go frb,
-    accepts := fun fn x => codeAccepts Gen.codes fn (.s x),
-    cm := { dec := Gen.cp037Dec, repl := Gen.cp037Repl }, b64 := b64Go, now := now, frb := frb }
+def theModel (frb : Bool) (now : Date) : Model := genModel frb now
 
 /-- the same machine over the hand-written Spec tables: layout columns for writing and for direct
 decoding, documented rules for validation (setRecordType/constructor effects are taken from Gen) -/
